@@ -1,25 +1,38 @@
 (* Correspondence for C14: compare the model with what /repo returned on the same inputs.
-   One case = one call
+   CEvolve = one call
      s = cpl.Sandpile(rows, cols, is_closed_boundary); s.add_grain(cell, t) for each addition (in order);
-     cpl.evolve2d(np.array([init]), T, s, r=1, neighbourhood='von Neumann', memoize=...)
-   and the observable is the returned array (all T grids).  The memoize option is not part of the case:
-   the harness uses True / 'recursive' only where the rule is pure (open boundary, no additions), and the
-   answer must then be the one of the plain loop. *)
+     cpl.evolve2d(np.array([init], dtype=...), T, s, r=1, neighbourhood=ty, memoize=...)
+   and the observable is the returned array (all T grids).  The memoize option and the dtype are not part
+   of the case: the harness uses memoize True / 'recursive' only where the rule is pure (open boundary, no
+   additions), and only dtypes in which all counts of the run are representable (store = identity).
+   CReuse = the SAME Sandpile object (same schedule) used for two consecutive evolve2d calls: the rule
+   object of the model is stateless, so the second call sees the full schedule. *)
 From CPL Require Import Model.Base Model.Rules Model.Engine Model.Evolve2D Model.Sandpile.
 
 Inductive case :=
-| CEvolve (rows cols : nat) (closed : bool) (adds : list addition) (init : grid) (T : nat)
-          (obs : res (list grid)).
+| CEvolve (rows cols : nat) (closed : bool) (adds : list addition) (ty : nbhd_type) (init : grid) (T : nat)
+          (obs : res (list grid))
+| CReuse (rows cols : nat) (closed : bool) (adds : list addition) (ty : nbhd_type)
+         (init1 : grid) (T1 : nat) (obs1 : res (list grid))
+         (init2 : grid) (T2 : nat) (obs2 : res (list grid)).
 
-Definition model_out (c : case) : res (list grid) :=
+Definition run (rows cols : nat) (closed : bool) (adds : list addition) (ty : nbhd_type) (init : grid) (T : nat)
+  : res (list grid) :=
+  bind (evolve2d_plain (sandpile_rule rows cols closed adds) store_id 1 ty tt [init] T) (fun p => Ok (snd p)).
+
+Definition model_out (c : case) : list (res (list grid)) :=
   match c with
-  | CEvolve rows cols closed adds init T _ =>
-      bind (evolve2d_plain (sandpile_rule rows cols closed adds) store_id 1 VonNeumann tt [init] T)
-           (fun p => Ok (snd p))
+  | CEvolve rows cols closed adds ty init T _ => [run rows cols closed adds ty init T]
+  | CReuse rows cols closed adds ty init1 T1 _ init2 T2 _ =>
+      [run rows cols closed adds ty init1 T1; run rows cols closed adds ty init2 T2]
   end.
 
-Definition observed (c : case) : res (list grid) :=
-  match c with CEvolve _ _ _ _ _ _ o => o end.
+Definition observed (c : case) : list (res (list grid)) :=
+  match c with
+  | CEvolve _ _ _ _ _ _ _ o => [o]
+  | CReuse _ _ _ _ _ _ _ o1 _ _ o2 => [o1; o2]
+  end.
 
 (* error classes are not part of C14 *)
-Definition check_case (c : case) : bool := res_eqb_anyexc zhist_eqb (model_out c) (observed c).
+Definition check_case (c : case) : bool :=
+  list_eqb (res_eqb_anyexc zhist_eqb) (model_out c) (observed c).
